@@ -137,7 +137,9 @@ def judge(prog: Program, ref: dict[str, Any], ex: Exec, res: Any, fs: dict[str, 
                 problems.append(("work-skipped", f"tasks executed fewer times than uninterrupted: {under}"))
         for x in check_ledger_unique(h, "C01", ex.crash_marks):
             problems.append(("step-executed-twice", x["msg"]))
-        if fs["queue"] or fs["dlq"]:
+        # a dead-lettered message is judged only where the outcome is schedule independent: once a halting
+        # failure cancels concurrently running branches, which late messages exist at all depends on the schedule
+        if fs["queue"] or (fs["dlq"] and not status_racy):
             problems.append(("stranded-messages", f"queue={fs['queue']} dlq={fs['dlq']} after drain"))
         for q in check_quiescent(fs):
             if q["cls"] in ("stuck", "running-stage-in-finished-workflow"):
